@@ -33,6 +33,18 @@ Definition sprob (r : seedrec) : Q := fst (snd r).
 Definition sgroup (r : seedrec) : option N := snd (snd r).
 Definition ids (sl : seeds) : list N := map sid sl.
 
+(* `seeds.record(id)` *)
+Fixpoint lookup (sl : seeds) (s : N) : option (Q * option N) :=
+  match sl with
+  | [] => None
+  | r :: rest => if sid r =? s then Some (snd r) else lookup rest s
+  end.
+
+(* probability of a seed (absent seeds are never true) and product over a set of seeds *)
+Definition seed_p (sl : seeds) (s : N) : Q :=
+  match lookup sl s with Some (p, _) => p | None => 0%Q end.
+Definition proof_product (sl : seeds) (pr : list N) : Q := fold_right (fun s acc => (seed_p sl s * acc)%Q) 1%Q pr.
+
 (* Independent seeds: sum over all worlds of the product weight, of the indicator of f *)
 Fixpoint psum (sl : seeds) (f : world -> bool) (acc : world) : Q :=
   match sl with
@@ -88,3 +100,17 @@ Definition ProbX_node (sl : seeds) (a : arena) (root : N) : Q :=
 (* a proof (set of seeds) holds in a world when all its seeds are true; a list of proofs is read as a DNF *)
 Definition holds (pr : list N) (w : world) : bool := forallb (fun s => memN s w) pr.
 Definition dnf (ps : list (list N)) (w : world) : bool := existsb (fun pr => holds pr w) ps.
+
+(* meaning of a sequence of construction operations, computed directly (no arena): value of every
+   operation's result in world w *)
+Definition ref_val (vals : list bool) (r : N) : bool :=
+  if r =? 0 then false else if r =? 1 then true else nth (N.to_nat (r - 2)) vals false.
+Definition op_val (w : world) (vals : list bool) (o : bop) : bool :=
+  match o with
+  | OLit s => memN s w
+  | ONot r => negb (ref_val vals r)
+  | OAnd rs => forallb (ref_val vals) rs
+  | OOr rs => existsb (ref_val vals) rs
+  end.
+Definition ops_vals (w : world) (ops : list bop) : list bool :=
+  fold_left (fun vals o => vals ++ [op_val w vals o]) ops [].
